@@ -32,6 +32,33 @@ FACETS = {
     "wedge": [(0, 1, 2), (3, 4, 5), (0, 1, 4, 3), (1, 2, 5, 4), (0, 2, 5, 3)],
 }
 
+def _hex_edges():
+    ref = [(0, 0, 0), (0, 0, 1), (0, 1, 0), (1, 0, 0),
+           (0, 1, 1), (1, 0, 1), (1, 1, 0), (1, 1, 1)]
+    return [(a, b) for a in range(8) for b in range(a + 1, 8)
+            if sum(x != y for x, y in zip(ref[a], ref[b])) == 1]
+
+
+EDGES = {
+    "line": [],
+    "tri": [(0, 1), (1, 2), (0, 2)],
+    "quad": [(0, 1), (1, 2), (2, 3), (0, 3)],
+    "tet": [(0, 1), (1, 2), (0, 2), (0, 3), (1, 3), (2, 3)],
+    "hex": _hex_edges(),
+    "wedge": [(0, 1), (1, 2), (0, 2), (3, 4), (4, 5), (3, 5), (0, 3), (1, 4),
+              (2, 5)],
+}
+
+
+def count_edges(t, kind):
+    tt = np.asarray(t)[:NV[kind]]
+    keys = set()
+    for a, b in EDGES[kind]:
+        e = np.sort(tt[[a, b]], axis=0).T
+        keys.update(map(tuple, e.tolist()))
+    return len(keys)
+
+
 HEX_REF = np.array([[0, 0, 0], [0, 0, 1], [0, 1, 0], [1, 0, 0],
                     [0, 1, 1], [1, 0, 1], [1, 1, 0], [1, 1, 1]], dtype=float)
 QUAD_REF = np.array([[0, 0], [1, 0], [1, 1], [0, 1]], dtype=float)
@@ -251,7 +278,42 @@ def dist_point_simplex(x, S):
 
 
 def dist_point_facet(x, P):
-    return min(dist_point_simplex(x, T) for T in facet_triangles(np.asarray(P)))
+    """Distance from x to a facet given by its ordered vertices.  A planar
+    quadrilateral is two triangles; a non-planar one is treated as the
+    bilinear patch it is (own Gauss-Newton for the closest point)."""
+    P = np.asarray(P, dtype=float)
+    x = np.asarray(x, dtype=float)
+    if len(P) < 4:
+        return dist_point_simplex(x, P)
+    dtri = min(dist_point_simplex(x, T) for T in facet_triangles(P))
+    if P.shape[1] == 2:
+        return dtri
+    n = np.cross(P[1] - P[0], P[3] - P[0])
+    nn = np.linalg.norm(n)
+    size = max(np.linalg.norm(P[2] - P[0]), 1e-300)
+    if nn == 0 or abs(np.dot(P[2] - P[0], n / nn)) <= 1e-13 * size:
+        return dtri
+    u = v = 0.5
+    best = dtri
+    for _ in range(25):
+        S = ((1 - u) * (1 - v) * P[0] + u * (1 - v) * P[1] + u * v * P[2]
+             + (1 - u) * v * P[3])
+        Su = (1 - v) * (P[1] - P[0]) + v * (P[2] - P[3])
+        Sv = (1 - u) * (P[3] - P[0]) + u * (P[2] - P[1])
+        r = x - S
+        best = min(best, float(np.linalg.norm(r)))
+        J = np.array([Su, Sv]).T
+        try:
+            d = np.linalg.lstsq(J, r, rcond=None)[0]
+        except np.linalg.LinAlgError:
+            break
+        u = float(np.clip(u + d[0], 0.0, 1.0))
+        v = float(np.clip(v + d[1], 0.0, 1.0))
+        if np.abs(d).max() < 1e-14:
+            break
+    S = ((1 - u) * (1 - v) * P[0] + u * (1 - v) * P[1] + u * v * P[2]
+         + (1 - u) * v * P[3])
+    return min(best, float(np.linalg.norm(x - S)))
 
 
 # ----------------------------------------------------------------- location
